@@ -319,3 +319,63 @@ package route
 //@   loop 2 invariant[response-being-relayed] resp != nil && toInt(resp) == toInt(doResp(cl)) && doN(cl) == old(doN(cl)) + 1 && statusWrites(w) == old(statusWrites(w)) && bodyWrites(w) == old(bodyWrites(w)) && copyN(w) == old(copyN(w))
 //@   loop 2 invariant[response-headers-copied-so-far] forall k string :: seen(k) ==> in(resp.Header, k) && in(respHeader(w), k) && sameValues(respHeader(w)[k], resp.Header[k])
 //@   modifies all(doN), all(doReq), all(doResp), all(copyN), all(copied), all(readOK), all(respHeader), all(statusWrites), all(lastStatus), all(bodyWrites)
+
+// ---- C25 / C24 / C28 / C37 (wiring): how LnS assembles the HTTP server. gorilla/mux as a log of what is
+// registered: usedMW(router, name) - the named method was installed as middleware on that (sub)router;
+// subPrefix(router) - the path prefix a subrouter serves; routePrefix / routeHandler - a route's path and handler.
+//@ ghost usedMW(ref, string) bool
+//@ ghost subPrefix(ref) string
+//@ ghost routePrefix(ref) string
+//@ ghost routeHandler(ref) string
+//@ package github.com/gorilla/mux
+//@ assume github.com/gorilla/mux.NewRouter
+//@   ensures result != nil && isFresh(result) && subPrefix(result) == "" && (forall n string :: !usedMW(result, n))
+//@ assume github.com/gorilla/mux.(*Router).UseEncodedPath
+//@   ensures result == r
+//@ assume github.com/gorilla/mux.(*Router).PathPrefix
+//@   ensures result != nil && isFresh(result) && routePrefix(result) == tpl
+//@ assume github.com/gorilla/mux.(*Router).HandleFunc
+//@   ensures result != nil && isFresh(result) && routePrefix(result) == path && routeHandler(result) == fnName(f)
+//@ assume github.com/gorilla/mux.(*Router).Handle
+//@   ensures result != nil && isFresh(result) && routePrefix(result) == path
+//@ assume github.com/gorilla/mux.(*Route).Methods
+//@   ensures result == r
+//@ assume github.com/gorilla/mux.(*Route).Name
+//@   ensures result == r
+//@ assume github.com/gorilla/mux.(*Route).HandlerFunc
+//@   ensures result == r
+//@   ghostupdate routeHandler(r) :: routeHandler(r) == fnName(f)
+//@ assume github.com/gorilla/mux.(*Route).Subrouter
+//@   ensures result != nil && isFresh(result) && subPrefix(result) == routePrefix(r) && (forall n string :: !usedMW(result, n))
+//@ package route
+//@ package config
+//@ assume config.Config.GetEnvironmentCacheTTL getter
+//@ assume config.Config.GetGRPCConfig getter
+//@ assume config.Config.GetGRPCEnabled getter
+//@ assume config.Config.GetGRPCListenAddr getter
+//@ assume config.Config.GetHTTPIdleTimeout getter
+//@ assume config.Config.GetListenAddr getter
+//@ assume config.Config.GetPeerListenAddr getter
+//@ package route
+//@ assume route.(*Router).registerMetricNames
+//@ assume route.(*Router).AddOTLPMuxxer
+//@ assume route.(*Router).startGRPCHealthMonitor
+//@ assume route.NewTraceServer
+//@ assume route.NewLogsServer
+//@ assume route.registerCustomTraceService
+//@ assume route.makeDecoders
+//@ assume route.newEnvironmentCache
+// a server's handler is fixed when the server value is built
+//@ final net/http.Server.Handler
+//@ final route.Router.server init route.(*Router).LnS
+//@ spec builtServer(r *Router, before *http.Server) bool := r.server != nil && toInt(r.server) != toInt(before)
+//@ contract route.(*Router).LnS props C25,C24,C28,C37 havocheap noinv
+//@   assert only none
+//@   requires r != nil
+//@   let srv0 = r.server
+// the clauses speak of the server LnS built; when it returns early (the decoder could not start) there is none
+//@   ensures[query-endpoints-sit-behind-the-token-check@C25] builtServer(r, srv0) ==> subPrefix(queryMuxxer) == "/query/" && usedMW(queryMuxxer, "route.(*Router).queryTokenChecker")
+//@   ensures[event-endpoints-sit-behind-the-key-check@C24] builtServer(r, srv0) ==> subPrefix(authedMuxxer) == "/1/" && usedMW(authedMuxxer, "route.(*Router).apiKeyProcessor")
+//@   ensures[every-route-sits-behind-the-panic-catcher@C28] builtServer(r, srv0) ==> usedMW(muxxer, "route.(*Router).panicCatcher")
+//@   ensures[requests-reach-the-routes-as-they-arrive@C37] builtServer(r, srv0) ==> toInt(r.server.Handler) == toInt(muxxer)
+//@   modifies all(usedMW), all(subPrefix), all(routePrefix), all(routeHandler)
